@@ -21,7 +21,8 @@ EXPLANATION = (
     "magic); chunk offsets come from a running offset that advances by each chunk's size; the close "
     "sequence is header, row group, metadata, length, magic; (5) structs defined twice in different "
     "units have identical fields and every hand-written extern prototype equals the definition's "
-    "type. Decides these clauses, not acceptance by an independent reader nor determinism of bytes.")
+    "type; (6) compress_data appends the caller's raw bytes only under codec == UNCOMPRESSED, otherwise the "
+    "compressor's buffer and size (a chunk tagged with a codec never holds raw pages). Decides these clauses, not acceptance by an independent reader nor determinism of bytes.")
 
 PT = "src/thrift/parquet_types.c"
 PW = "src/writer/page_writer.c"
@@ -46,6 +47,9 @@ def run(ctx):
     ctx.clause("C05.3 page header sizes, CRC and counts describe the stored bytes")
     ctx.clause("C05.4 offsets accumulate from what was written; close order")
     ctx.clause("C05.5 duplicated struct definitions and extern prototypes agree")
+    ctx.clause("C05.6 page bytes of a non-UNCOMPRESSED chunk are always the codec's output")
+    from ..rules import codecrepr
+    codecrepr.writer(ctx)
     # ---- (1)
     wnames = {f.name for f in P.funcs_in(PT) if f.name.startswith("write_") or f.name.startswith("parquet_write_")}
     rows = 0
